@@ -48,6 +48,7 @@ class FakeChannel:
         self.polls = []
         self.sent = []
         self.on_poll = None         # callable(n) -> None | raises
+        self.update = None          # None: answer NO_CHANGE; else [{'id','path','line','args'}]: answer UPDATE with these
         self.on_send = None         # callable(n) -> None | raises | blocks
         self.lock = threading.Lock()
         self.closed = False
@@ -62,6 +63,11 @@ class FakeChannel:
                 if self.on_poll:
                     self.on_poll(n)
                 from deepproto.proto.poll.v1.poll_pb2 import PollResponse, ResponseType
+                if self.update is not None and request.current_hash != 'hfix':
+                    from deepproto.proto.tracepoint.v1.tracepoint_pb2 import TracePointConfig
+                    tps = [TracePointConfig(ID=t['id'], path=t['path'], line_number=t['line'], args=t.get('args', {}))
+                           for t in self.update]
+                    return PollResponse(response_type=ResponseType.UPDATE, ts_nanos=n, current_hash='hfix', response=tps)
                 return PollResponse(response_type=ResponseType.NO_CHANGE, ts_nanos=n)
             with self.lock:
                 self.sent.append(len(data))
@@ -81,10 +87,14 @@ class FakeGrpcModule:
 
     def __init__(self):
         self.channels = []
+        self.update = None          # what new channels answer to a poll (see FakeChannel.update)
 
     def _new(self, *a, **k):
         c = FakeChannel()
+        c.update = self.update
         self.channels.append(c)
+        if len(self.channels) > 50:
+            del self.channels[:25]
         return c
 
     secure_channel = _new
